@@ -122,4 +122,43 @@ def decodeCanonical (M : Meta) (buf : Bytes) : Option (List (Nat × Bytes)) :=
 
 def mapOfList (fs : List (Nat × Bytes)) : FMap := lastWrite FMap.empty fs
 
+/-! ### what a parser of an options buffer may report (radiotap standard; used by the oracle of `walk` / `skipto`) -/
+
+/-- the present words of an options buffer: word `i + 1` exists iff word `i` has bit 31; `none` when the chain
+    does not fit the buffer -/
+def stdChain : Nat → Bytes → Nat → Option (List Nat)
+  | 0, _, _ => none
+  | fuel + 1, buf, i =>
+    if 4 * i + 4 ≤ buf.length then
+      let w := read32 buf (4 * i)
+      if w / 2147483648 % 2 = 1 then (stdChain fuel buf (i + 1)).map (w :: ·) else some [w]
+    else none
+
+/-- a field a parser reports: bit, offset in the options buffer, value (`none` = the field starts inside the
+    buffer but does not end inside it) -/
+structure StdItem where
+  bit : Nat
+  off : Nat
+  val : Option Bytes
+deriving DecidableEq, Repr
+
+/-- the defined fields (`bit < M.max`) of the present word `w`, laid out from buffer offset `cur` on, each at the
+    next offset that is aligned counted from the radiotap header (4 bytes before the buffer); stops at the first
+    field that does not start inside the buffer.  Returns the fields, the offset after the last one, and whether
+    all fields of the word were reached. -/
+def stdFieldsOf (M : Meta) (buf : Bytes) (w : Nat) : Nat → Nat → Nat → List StdItem × Nat × Bool
+  | 0, _, cur => ([], cur, true)
+  | n + 1, b, cur =>
+    if w / 2 ^ b % 2 = 1 then
+      let off := cur + padTo (M.align b) (cur + 4)
+      if off < buf.length then
+        let v := if off + M.size b ≤ buf.length then some ((buf.drop off).take (M.size b)) else none
+        let r := stdFieldsOf M buf w n (b + 1) (off + M.size b)
+        ({ bit := b, off := off, val := v } :: r.1, r.2.1, r.2.2)
+      else ([], cur, false)
+    else stdFieldsOf M buf w n (b + 1) cur
+
+/-- namespace of the word that follows `w`: 0 = radiotap (bit 29), 1 = vendor (bit 30), 2 = neither -/
+def stdNsAfter (w : Nat) : Nat := if w / 536870912 % 2 = 1 then 0 else if w / 1073741824 % 2 = 1 then 1 else 2
+
 end Tins.RT
